@@ -343,7 +343,10 @@ def judge_maplike(ctx, case, obs, val):
             fail("failing-input", f"{api}: the function was not called exactly once for tasks {missing}",
                  f"{api}-exactly-once", impl=obs["func_calls"])
     if obs["err"] is None and case["on_content"]:
-        files = [p for b in sp["stream"] for p in b]
+        # a bundle with an unreadable member yields one warning and one None for the bundle (the unit map() works
+        # on); whether the bundle's other members were still read before the error surfaced is not fixed by the
+        # property (they must not be read twice, checked above), so only bundles without unreadable member count here
+        files = [p for b in sp["stream"] if not (case["e2w"] and len(b) > 1 and any(q in sp["rfail"] for q in b)) for p in b]
         missing = [p for p in files if obs["read_calls"].get(f"p:{p}", 0) != 1]
         if missing:
             fail("failing-input", f"{api}: files not read exactly once: {missing}", f"{api}-exactly-once",
